@@ -4,8 +4,9 @@ models of the other properties (container: C03 `Header`; head/hhea/hmtx/maxp/OS-
 `Metrics`; name: C14 `Names`; glyf/loca: C11 `Glyf`) and from the font-level plumbing of this
 property (`derive`, `merge`).  Core-only (linked into the driver).
 
-Stage 2: TrueType outlines, cmap table (C09 `CmapTable`), glyph names in post (C14 `NamesPost`);
-no GDEF/GSUB/GPOS.
+Stage 2: TrueType outlines, cmap table (C09 `CmapTable`), glyph names in post (C14 `NamesPost`).
+Stage 4' (container level): GDEF / GSUB / GPOS are carried as their encoded bytes; their decoders
+are parameters (`LayoutDec`), the round trip of C08 enters the theorem as an explicit guard.
 -/
 import SfntV.Model.FontMerge
 import SfntV.Model.Header
@@ -39,6 +40,10 @@ structure FileFont where
   cmap : Option CmapTable.Table
   /-- `Outlines.Names` (`none` = nil slice): glyph names as byte strings -/
   glyphNames : Option (List Names.GName)
+  /-- `Font.Gdef/Gsub/Gpos` as the bytes their `Encode()` returns (`none` = nil pointer) -/
+  gdef : Option Bytes := none
+  gsub : Option Bytes := none
+  gpos : Option Bytes := none
 deriving Repr, DecidableEq
 
 /-- what `Write` takes from outside the font value -/
@@ -95,7 +100,8 @@ def outlineOf (gs : Glyf.Glyphs) (widths : Option (List Int)) (cm : Option CmapT
 /-- the `FontMeta` a file font stands for -/
 def metaOf (F : FileFont) : FontMeta :=
   { F.scalars with outline := outlineOf F.glyphs (some F.widths) F.cmap F.glyphNames,
-                   gdef := none, gsub := none, gpos := none }
+                   gdef := F.gdef.map tokenOfBytes, gsub := F.gsub.map tokenOfBytes,
+                   gpos := F.gpos.map tokenOfBytes }
 
 /-! ## concrete table records (adapters between the font-level records and the C12/C14 models) -/
 
@@ -238,7 +244,8 @@ def writeTables (ef : EnvF) (F : FileFont) : Outcome (List Header.Entry) :=
               ⟨tag "OS/2", some os2⟩, ⟨tag "name", some name⟩,
               ⟨tag "post", some post⟩, ⟨tag "glyf", some enc.glyf⟩, ⟨tag "loca", some enc.loca⟩] ++
              F.sideTables.map (fun t => ⟨t.1, some t.2⟩) ++
-             [⟨tag "maxp", some maxp⟩, ⟨tag "head", some head⟩])
+             [⟨tag "maxp", some maxp⟩, ⟨tag "head", some head⟩,
+              ⟨tag "GDEF", F.gdef⟩, ⟨tag "GSUB", F.gsub⟩, ⟨tag "GPOS", F.gpos⟩])
 
 /-- `(*Font).Write`: the bytes of the file -/
 def writeFile (ef : EnvF) (F : FileFont) : Outcome Bytes :=
@@ -293,10 +300,28 @@ def optDecode (t : Option Bytes) (dec : Bytes → Outcome α) : Outcome (Option 
     | .err e => .err e
     | .panic s => .panic s
 
-/-- `sfnt.Read` (read.go:62-523) on a TrueType file without cmap and layout tables: directory,
-table decoders in the order of the Go code, consistency checks (`readErr`), `merge`.  The caret
-angle recovered from hhea goes through float trigonometry (`toAngle`): `caretOf` supplies it. -/
-def readFile (caretOf : Int → Int → Int) (f : Bytes) : Outcome ReadResult :=
+/-- decoders of the layout tables (C08: `gdef.Read`, `gtab.Read`); the result is the token under
+which the font-level model carries the table -/
+structure LayoutDec where
+  gdef : Bytes → Outcome Str
+  gsub : Bytes → Outcome Str
+  gpos : Bytes → Outcome Str
+
+/-- `if dir.Has(name) { … Read … }`: `Has` is false for a missing or zero-length table -/
+def hasDecode (t : Option Bytes) (dec : Bytes → Outcome α) : Outcome (Option α) :=
+  match t with
+  | none => .ok none
+  | some b => if b.isEmpty then .ok none else
+    match dec b with
+    | .ok a => .ok (some a)
+    | .err e => .err e
+    | .panic s => .panic s
+
+/-- `sfnt.Read` (read.go:62-523) on a TrueType file: directory, table decoders in the order of the
+Go code, consistency checks (`readErr`), `merge`.  The caret angle recovered from hhea goes through
+float trigonometry (`toAngle`): `caretOf` supplies it.  A `kern` table (only in foreign files) is
+not modelled at this level. -/
+def readFile (ld : LayoutDec) (caretOf : Int → Int → Int) (f : Bytes) : Outcome ReadResult :=
   match Header.read 280 f with
   | .err e => .err ("header:" ++ e)
   | .panic s => .panic s
@@ -326,6 +351,16 @@ def readFile (caretOf : Int → Int → Int) (f : Bytes) : Outcome ReadResult :=
     match optDecode (tab (tag "post")) decodePostFull with
     | .err e => .err ("post:" ++ e) | .panic s => .panic s
     | .ok post =>
+    match hasDecode (tab (tag "GDEF")) ld.gdef with
+    | .err e => .err ("GDEF:" ++ e) | .panic s => .panic s
+    | .ok gdef =>
+    match hasDecode (tab (tag "GSUB")) ld.gsub with
+    | .err e => .err ("GSUB:" ++ e) | .panic s => .panic s
+    | .ok gsub =>
+    match hasDecode (tab (tag "GPOS")) ld.gpos with
+    | .err e => .err ("GPOS:" ++ e) | .panic s => .panic s
+    | .ok gpos =>
+    if (tab (tag "kern")).isSome then .err "kern-not-modelled" else
     match head, maxp, tab (tag "loca"), tab (tag "glyf") with
     | some h, some mx, some loca, some glyf =>
       match Glyf.decode h.locaFormat loca glyf with
@@ -342,7 +377,7 @@ def readFile (caretOf : Int → Int → Int) (f : Bytes) : Outcome ReadResult :=
             post := post.map (·.1),
             cff := none,
             outline := outlineOf gs none cm (namesFor gs.length (post.bind (·.2))),
-            gdef := none, gsub := none, gpos := none, kern := none }
+            gdef := gdef, gsub := gsub, gpos := gpos, kern := none }
         match readErr T with
         | some e => .err e
         | none =>
